@@ -105,3 +105,51 @@ def foreign_imports(gen):
                 continue
             out.append((rel, ln, mod))
     return out
+
+
+def unbound_names(gen):
+    """names LOADED somewhere in an emitted module that are bound NOWHERE in that module (no import, def, class, assignment, parameter, loop / with / except /
+    comprehension / match target of that name in any scope) and are not builtins: using them raises NameError at call time even though the module imports.
+    Deliberately coarse (one flat set of bound names per file): it cannot raise a false alarm through scoping subtleties."""
+    import builtins
+    out = []
+    for f in gen.py_files():
+        try:
+            tree = parse(f)
+        except SyntaxError:
+            continue
+        bound, loaded = set(dir(builtins)) | {"__file__", "__name__", "__doc__", "__all__", "__path__"}, {}
+        for n in ast.walk(tree):
+            if isinstance(n, (ast.Import, ast.ImportFrom)):
+                for a in n.names:
+                    bound.add((a.asname or a.name).split(".")[0])
+                    if a.name == "*":
+                        bound.add("*")
+            elif isinstance(n, (ast.FunctionDef, ast.AsyncFunctionDef, ast.ClassDef)):
+                bound.add(n.name)
+                if not isinstance(n, ast.ClassDef):
+                    for a in n.args.args + n.args.kwonlyargs + n.args.posonlyargs + ([n.args.vararg] if n.args.vararg else []) + ([n.args.kwarg] if n.args.kwarg else []):
+                        bound.add(a.arg)
+            elif isinstance(n, ast.Lambda):
+                for a in n.args.args + n.args.kwonlyargs:
+                    bound.add(a.arg)
+            elif isinstance(n, ast.Name):
+                if isinstance(n.ctx, (ast.Store, ast.Del)):
+                    bound.add(n.id)
+                else:
+                    loaded.setdefault(n.id, n.lineno)
+            elif isinstance(n, ast.ExceptHandler) and n.name:
+                bound.add(n.name)
+            elif isinstance(n, (ast.MatchAs, ast.MatchStar)) and n.name:
+                bound.add(n.name)
+            elif isinstance(n, ast.MatchMapping) and n.rest:
+                bound.add(n.rest)
+            elif isinstance(n, (ast.Global, ast.Nonlocal)):
+                bound.update(n.names)
+        if "*" in bound:
+            continue  # a star import may bind anything
+        # names inside string annotations / TYPE_CHECKING are not loads; ast gives only real Name nodes
+        for name, ln in sorted(loaded.items()):
+            if name not in bound:
+                out.append((os.path.relpath(f, gen.root), ln, name))
+    return out
